@@ -154,15 +154,19 @@ def run(ctx, drv):
                     break
         # ---------------- cuts for every k
         for k in range(0, len(sols) + 3):
-            tr = call(C.nondominated_truncate, list(sols), k)
-            sp = call(C.nondominated_split, list(sols), k)
+            # the population as a list, a tuple, or (truncate sorts its argument once, so any iterable will do) a one-shot
+            # iterator / generator: the same solutions, the same answer
+            form = (k + len(sols)) % 5
+            targ = iter(list(sols)) if form == 1 else ((s_ for s_ in list(sols)) if form == 3 else (tuple(sols) if form == 4 else list(sols)))
+            tr = call(C.nondominated_truncate, targ, k)
+            sp = call(C.nondominated_split, tuple(sols) if form == 2 else list(sols), k)
             # prune recomputes crowding distances (side effect on attributes): restore afterwards
             saved = [(s.crowding_distance) for s in sols]
             pr = call(C.nondominated_prune, list(sols), k)
             for s, v in zip(sols, saved):
                 s.crowding_distance = v
             pos = {id(s): i for i, s in enumerate(sols)}
-            kin = dict(inp, k=k, ranks=ranks)
+            kin = dict(inp, k=k, ranks=ranks, population_given_to_truncate_as=["list", "iterator", "list", "generator", "tuple"][form])
             if isinstance(tr, str) or isinstance(sp, str) or isinstance(pr, str):
                 ctx.fail("cut-raises", kin, [x for x in (tr, sp, pr) if isinstance(x, str)][0], "a list", "core.nondominated_truncate/split/prune")
                 break
